@@ -45,7 +45,7 @@ func init() {
 			}
 			return []runner.Phase{
 				{Name: "direct", Variant: "race", Cases: n, Run: c16direct, CaseTimeout: 180 * time.Second,
-					Required: []string{"steps", "step_down_vanish_return", "step_add", "step_remove", "step_readdress", "step_replace_id", "step_invalid_rows", "step_duplicate_row", "step_down", "step_up", "step_refresh_failure", "step_control_loss", "step_flap", "step_event_for_removed", "step_peer_address_change", "step_join_during_control_outage", "step_filter_rejects_known_node", "step_join_announced_by_up_only", "step_removed_event_for_live_address", "step_join_listed_after_duplicate", "sessions_with_host_filter", "consistency_checks"}},
+					Required: []string{"steps", "sessions_with_token_aware_policy", "step_down_vanish_return", "step_add", "step_remove", "step_readdress", "step_replace_id", "step_invalid_rows", "step_duplicate_row", "step_down", "step_up", "step_refresh_failure", "step_control_loss", "step_flap", "step_event_for_removed", "step_peer_address_change", "step_join_during_control_outage", "step_filter_rejects_known_node", "step_join_announced_by_up_only", "step_removed_event_for_live_address", "step_join_listed_after_duplicate", "sessions_with_host_filter", "consistency_checks"}},
 				{Name: "realtime", Variant: "race", Cases: rt, Shards: 8, Run: c16realtime, CaseTimeout: 180 * time.Second, Required: []string{"event_bursts", "refresh_overlaps"}},
 			}
 		},
@@ -53,17 +53,18 @@ func init() {
 }
 
 type c16model struct {
-	cl      *fakenode.Cluster
-	mu      sync.Mutex // dup, extra: read by the nodes' goroutines
-	down    map[*fakenode.Node]bool
-	extra   []fakenode.PeerRow // invalid rows currently reported
-	dup     *fakenode.Node     // node whose row is reported twice
-	nextIP  int
-	nextID  int
-	removed []*fakenode.Node
-	oldIDs  []string
-	oldIPs  []string
-	denied  map[string]bool // connect addresses the session's HostFilter rejects at the moment (nil = no filter configured)
+	tokenAware bool // the session uses a token-aware policy over the keyspace ks1 (replication factor 1)
+	cl         *fakenode.Cluster
+	mu         sync.Mutex // dup, extra: read by the nodes' goroutines
+	down       map[*fakenode.Node]bool
+	extra      []fakenode.PeerRow // invalid rows currently reported
+	dup        *fakenode.Node     // node whose row is reported twice
+	nextIP     int
+	nextID     int
+	removed    []*fakenode.Node
+	oldIDs     []string
+	oldIPs     []string
+	denied     map[string]bool // connect addresses the session's HostFilter rejects at the moment (nil = no filter configured)
 }
 
 // peerAddr is the address the ring indexes a node by (its node-to-node address).
@@ -291,6 +292,42 @@ func c16verify(sess *gocql.Session, m *c16model, pol gocql.HostSelectionPolicy) 
 			add("pool:connection-to-removed-node", "%d connections to the removed node %s are still open", k, n.IP)
 		}
 	}
+	// the token-aware policy's own picture: a token reported by a known node is owned by that node; a token of a
+	// node the cluster no longer reports is owned by somebody who is still there (an absent placement - the keyspace
+	// could not be described at the time - is not judged)
+	if m.tokenAware {
+		// (only tokens that one node alone reports say who owns them)
+		tokN := map[string]int{}
+		for _, n := range m.cl.Snapshot() {
+			for _, t := range n.Tokens {
+				tokN[t]++
+			}
+		}
+		for _, n := range m.removed {
+			if len(n.Tokens) > 0 && tokN[n.Tokens[0]] > 0 {
+				tokN[n.Tokens[0]] += 2
+			}
+		}
+		for id, n := range want {
+			if len(n.Tokens) == 0 || tokN[n.Tokens[0]] != 1 {
+				continue
+			}
+			hs, _ := gocql.VerifTokenAwareReplicas(pol, "ks1", n.Tokens[0])
+			if len(hs) > 0 && hs[0].HostID() != id {
+				add("policy:token-ring:wrong-owner", "token %s is reported by node %s (%s), the token-aware policy has it owned by %s", n.Tokens[0], id, n.IP, hs[0].HostID())
+			}
+		}
+		for _, n := range m.removed {
+			rid := uuidString(n.HostID)
+			if want[rid] != nil || len(n.Tokens) == 0 || tokN[n.Tokens[0]] != 0 {
+				continue
+			}
+			hs, _ := gocql.VerifTokenAwareReplicas(pol, "ks1", n.Tokens[0])
+			if len(hs) > 0 && hs[0].HostID() == rid {
+				add("policy:token-ring:removed-node-owns-range", "the token-aware policy still has token %s owned by %s (%s), which the cluster no longer reports", n.Tokens[0], rid, n.IP)
+			}
+		}
+	}
 	// what the policy offers
 	offered := map[string]bool{}
 	nx := pol.Pick(nil)
@@ -332,8 +369,17 @@ func c16session(c *runner.Ctx, r *rand.Rand, i int) (*gocql.Session, *c16model, 
 		}
 	}
 	cl.PeersView = m.peersView
-	pol := gocql.RoundRobinHostPolicy()
+	var pol gocql.HostSelectionPolicy = gocql.RoundRobinHostPolicy()
 	cfg := newCfg(cl, 3+i%3)
+	if r.Intn(3) == 0 {
+		// a token-aware policy keeps a picture of its own (hosts, token ring, placement per keyspace); the session
+		// keyspace is replicated once, so the token a node reports leads to that node and to nobody else
+		pol = gocql.TokenAwareHostPolicy(gocql.RoundRobinHostPolicy())
+		cl.Keyspaces["ks1"] = map[string]string{"class": "org.apache.cassandra.locator.SimpleStrategy", "replication_factor": "1"}
+		cfg.Keyspace = "ks1"
+		m.tokenAware = true
+		c.Add("sessions_with_token_aware_policy", 1)
+	}
 	cfg.Hosts = []string{cl.Nodes[0].IP.String()}
 	cfg.PoolConfig.HostSelectionPolicy = pol
 	cfg.Timeout = 200 * time.Millisecond
